@@ -170,3 +170,8 @@ fn main() {
         println!("{}", "Parser(s) not generated.".paint(WARN));
     }
 }
+
+// Verification hook: compiled only by `cargo kani` (cfg(kani)); see /verif/MANIFEST.json.
+#[cfg(kani)]
+#[path = "/verif/units/kx/compiler/main.rs"]
+mod verif_kani_main;
